@@ -102,3 +102,33 @@ Proof.
   exists (fun x => x). intros x y. vm_compute.
   destruct x as [|[|[|x]]]; simpl; intros H; try tauto; destruct H as [<-|[]]; lia.
 Qed.
+
+(* ---------- chains: the transitive closure of the declared pairs inside one rand set is separated too ---------- *)
+Inductive reaches (d : deps) (fields : list nat) : nat -> nat -> Prop :=
+| reach_step a b : In b (deps_of d a) -> In a fields -> In b fields -> reaches d fields a b
+| reach_trans a b c : reaches d fields a b -> reaches d fields b c -> reaches d fields a c.
+
+Theorem rand_order_chain d fields gs a b :
+  NoDup fields -> rand_order d fields = Some gs -> reaches d fields a b ->
+  exists i j, group_index gs a 0 = Some i /\ group_index gs b 0 = Some j /\ j < i.
+Proof.
+  intros NF H R. induction R as [a b Hb Fa Fb|a b c R1 IH1 R2 IH2].
+  - eapply rand_order_separates; eauto.
+  - destruct IH1 as [i [j [Hi [Hj L1]]]]. destruct IH2 as [j' [k [Hj' [Hk L2]]]].
+    rewrite Hj in Hj'. inversion Hj'; subst j'. exists i, k. repeat split; auto. lia.
+Qed.
+
+(* a declaration that (transitively) orders a field before itself inside a rand set never yields groups *)
+Theorem rand_order_cycle_none d fields a :
+  NoDup fields -> reaches d fields a a -> rand_order d fields = None.
+Proof.
+  intros NF R. destruct (rand_order d fields) as [gs|] eqn:H; auto.
+  destruct (rand_order_chain _ _ _ _ _ NF H R) as [i [j [Hi [Hj L]]]].
+  rewrite Hi in Hj. inversion Hj; subst. lia.
+Qed.
+
+Example chain_example :
+  reaches (add_order (add_order [] [0] [1]) [1] [2]) [2; 0; 1] 2 0.
+Proof.
+  apply (reach_trans _ _ 2 1 0); apply reach_step; vm_compute; tauto.
+Qed.
